@@ -50,6 +50,8 @@ _SB = dict(
         ]),
     },
 )
+# stream-level reading of the contract: fails only if its source fails (raises clause)
+_SB["summary"] = dict(result="SHUF(stream(iterable), buffer_size)", fails_only_if="FAILS(stream(iterable))")
 contract(M, "shuffle_buffer", **_SB)
 
 # ---------------------------------------------------------------------------
@@ -136,6 +138,7 @@ _SBA["loops"][3] = Loop(inv=[
     "not failed()",
 ])
 _SBA["ghosts"] = {}
+_SBA["summary"] = None
 contract(M, "shuffle_buffer_async", **_SBA)
 
 contract(M, "round_robin_async",
